@@ -308,9 +308,13 @@ async def create_source_event_stream(
     if errors:
         return await response_builder(errors=errors)
 
-    operation_root_type = schema.get_operation_root_type(
-        execution_context.operation
-    )
+    try:
+        operation_root_type = schema.get_operation_root_type(
+            execution_context.operation
+        )
+    except Exception as e:  # pylint: disable=broad-except
+        execution_context.add_error(e)
+        return await response_builder(errors=execution_context.errors)
 
     fields = await collect_fields(
         execution_context,
